@@ -72,7 +72,11 @@ fn masters() -> Vec<(&'static str, Node)> {
     let m6 = Node::new("AUTOSAR").child(
         Node::new("AR-PACKAGES").child(named("AR-PACKAGE", "v").child(Node::new("ELEMENTS").child(named("APPLICATION-INTERFACE", "n")).child(named("CAN-CLUSTER", "c")).child(named("SYSTEM", "s")))),
     );
-    vec![("version-specific-element", m6), ("packages-and-elements", m1), ("bsw-values-by-definition-ref", m2), ("flat-bag", m3), ("tiny-bag", m4), ("tiny-bsw", m5)]
+    // two kinds, two elements each, in an order that is not grouped by kind; explored with every order of the children per file
+    let m7 = Node::new("AUTOSAR").child(Node::new("AR-PACKAGES").child(named("AR-PACKAGE", "k").child(
+        Node::new("ELEMENTS").child(named("SYSTEM", "x")).child(named("SYSTEM", "w")).child(named("ECU-INSTANCE", "y")).child(named("ECU-INSTANCE", "z")),
+    )));
+    vec![("two-kinds-every-sibling-order", m7), ("version-specific-element", m6), ("packages-and-elements", m1), ("bsw-values-by-definition-ref", m2), ("flat-bag", m3), ("tiny-bag", m4), ("tiny-bsw", m5)]
 }
 
 /// identity of a node among its siblings: kind + SHORT-NAME or DEFINITION-REF text
@@ -191,6 +195,32 @@ struct Case<'a> {
     versions: Vec<AutosarVersion>,
     reverse: Vec<bool>,
     order: Vec<usize>,
+    /// per file: the permutation number applied to the children of every ELEMENTS node of that file (0 = as in the master)
+    elements_perm: Vec<usize>,
+}
+
+/// the k-th permutation (lexicographic numbering by repeated selection) of the element children of every ELEMENTS node
+fn permute_elements(n: &mut Node, k: usize) {
+    if k == 0 {
+        return;
+    }
+    if n.name == "ELEMENTS" {
+        let mut kids: Vec<Item> = std::mem::take(&mut n.items);
+        let mut k = k;
+        let mut out = vec![];
+        while !kids.is_empty() {
+            let i = k % kids.len();
+            k /= kids.len();
+            out.push(kids.remove(i));
+        }
+        n.items = out;
+        return;
+    }
+    for it in n.items.iter_mut() {
+        if let Item::Node(c) = it {
+            permute_elements(c, k);
+        }
+    }
 }
 
 fn run_case(ctx: &Ctx, c: &Case) {
@@ -200,6 +230,12 @@ fn run_case(ctx: &Ctx, c: &Case) {
     if NOT_A_VALID_VIEW.with(|x| x.get()) {
         ctx.count("distributions_skipped_element_not_in_file_version", 1);
         return;
+    }
+    let mut docs = docs;
+    for (f, d) in docs.iter_mut().enumerate() {
+        if let Some(d) = d {
+            permute_elements(d, c.elements_perm[f]);
+        }
     }
     let texts: Vec<String> = docs.iter().enumerate().map(|(f, d)| print_document(d.as_ref().unwrap(), c.versions[f], &PrintOpts::default())).collect();
     let w = |extra: Value| {
@@ -428,12 +464,28 @@ pub fn run(tier: Tier) -> i32 {
             };
             let version_sets: Vec<Vec<AutosarVersion>> = if nfiles == 2 { vec![vec![V50, V50], vec![V50, V49], vec![V49, V50]] } else { vec![(0..nfiles).map(|i| if i % 2 == 0 { V50 } else { V49 }).collect()] };
             let reverse_sets: Vec<Vec<bool>> = if nfiles == 2 { vec![vec![false, false], vec![false, true], vec![true, true]] } else { vec![(0..nfiles).map(|i| i % 2 == 1).collect(), vec![false; nfiles]] };
+            if *mname == "two-kinds-every-sibling-order" {
+                // every order of the children in each of two files (24 x 24), same version, both load orders
+                if nfiles == 2 {
+                    assigns.par_iter().for_each(|a| {
+                        for order in &orders {
+                            for p0 in 0..24 {
+                                for p1 in 0..24 {
+                                    cases.fetch_add(1, Ordering::Relaxed);
+                                    run_case(&ctx, &Case { master_name: mname, master, nfiles, assign: a.clone(), versions: vec![V50, V50], reverse: vec![false, false], order: order.clone(), elements_perm: vec![p0, p1] });
+                                }
+                            }
+                        }
+                    });
+                }
+                continue;
+            }
             assigns.par_iter().for_each(|a| {
                 for order in &orders {
                     for versions in &version_sets {
                         for reverse in &reverse_sets {
                             cases.fetch_add(1, Ordering::Relaxed);
-                            run_case(&ctx, &Case { master_name: mname, master, nfiles, assign: a.clone(), versions: versions.clone(), reverse: reverse.clone(), order: order.clone() });
+                            run_case(&ctx, &Case { master_name: mname, master, nfiles, assign: a.clone(), versions: versions.clone(), reverse: reverse.clone(), order: order.clone(), elements_perm: vec![0; nfiles] });
                         }
                     }
                 }
